@@ -83,6 +83,9 @@ type PubVariant struct {
 	// StaleDir (with RealWriter): the output directory already holds an
 	// older, longer version of every page when the publish under test runs.
 	StaleDir bool `json:"stale_dir,omitempty"`
+	// Republish: one Publisher publishes twice (to two writers); the second
+	// site is the one that is judged.
+	Republish bool `json:"republish,omitempty"`
 }
 
 type PubEdit struct {
@@ -741,6 +744,8 @@ func genPublishCase(prop, tier string, r *rand.Rand) *Case {
 					v.Prior = 1
 				}
 				v.Interleaved = r.IntN(2) == 0
+			} else if r.IntN(3) == 0 {
+				v.Republish = true
 			} else {
 				v.RealWriter = true
 				v.StaleDir = r.IntN(2) == 0
@@ -834,13 +839,42 @@ func runPublishCase(t *testing.T, c *Case) *CaseResult {
 	// variants: schedule, jobs, map order, process history
 	for vi, v := range cfg.Variants {
 		var run *pubRun
-		if v.SameOptions || v.RealWriter {
+		if v.SameOptions || v.RealWriter || v.Republish {
 			doc, err := decode(c.Docs[0])
 			if err != nil {
 				continue
 			}
 			var lib *html.PublishShowOptions
-			if v.SameOptions && v.Interleaved {
+			if v.Republish {
+				lib = cfg.Options.lib()
+				if cfg.Options.MaxLivingAgeZero {
+					doc.MaxLivingAge = 0
+				}
+				sim := v.Sim
+				labels := map[unsafe.Pointer]int{}
+				labelDoc(labels, doc, 0)
+				sim.Labels = labels
+				sim.Today = parseToday(c.Today)
+				first, disk := &Disk{returnedAt: -1}, &Disk{returnedAt: -1}
+				var perr error
+				res, _ := runSim(t, cr, prop, sim, func() {
+					pa := html.NewPublisher(doc, lib)
+					pa.Publish(first, v.Jobs)
+					perr = pa.Publish(disk, v.Jobs)
+					disk.markReturned()
+				})
+				run = &pubRun{res: res, err: perr, events: disk.events, files: map[string][]byte{}, kinds: map[string]string{}}
+				for _, e := range disk.events {
+					if e.Err == "" {
+						if _, ok := run.files[e.Name]; ok {
+							run.dups = append(run.dups, [2]string{e.Name, "again"})
+						}
+						run.files[e.Name] = e.Data
+						run.kinds[e.Name] = e.Kind
+					}
+				}
+				cr.count("history.same_publisher_twice", 1)
+			} else if v.SameOptions && v.Interleaved {
 				lib = cfg.Options.lib()
 				priorText := "0 HEAD\n0 @X1@ INDI\n1 NAME Other /Otherson/\n1 DEAT\n2 DATE 1 Jan 1800\n0 TRLR\n"
 				if v.Prior >= 0 && v.Prior < len(c.Docs) {
@@ -936,7 +970,7 @@ func runPublishCase(t *testing.T, c *Case) *CaseResult {
 		}
 		if d := diffFiles(canon.files, run.files, canon.collided(), run.collided()); d != "" {
 			kind := "schedule/jobs/map-order"
-			if v.Prior >= 0 || v.SameOptions {
+			if v.Prior >= 0 || v.SameOptions || v.Republish {
 				kind = "earlier publish in the same process"
 			}
 			if v.RealWriter {
